@@ -157,7 +157,7 @@ def post(ctx):
                  "operation list, so the model sees exactly the operations the server saw; random histories use one server each",
         exhaustive_families="quick: every history of length <= 3 over the 27-operation alphabet (2 documents x 4 texts, 3 configurations, "
                             "3 save uris, format, other) and every history of length 4 over a 12-operation sub-alphabet; thorough: length <= 4 "
-                            "and length 5 respectively; plus seeded random histories of length 8..40 over 3 documents x 15 texts x 4 configurations",
+                            "and length 5 respectively; plus seeded random histories of length 8..40 over 3 documents x 15 texts x 5 configurations (one of which switches the templater)",
         configs=tables.get("configs"), texts=tables.get("texts_j"),
     ))
 
@@ -165,8 +165,8 @@ def post(ctx):
 CFG = dict(
     prop="C20", level="proof", harness="c20",
     props_files=["theories/Props/C20.v"], corr_file="theories/Corr/C20.v", corr_module="Corr.C20",
-    groups={"format": True, "docend": False},
-    show_fn={"format": "model_format", "docend": "model_docend"},
+    groups={"format": True, "fmtedit": False, "docend": False},
+    show_fn={"format": "model_format", "fmtedit": "model_format", "docend": "model_docend"},
     post=post, shard=400,
     design_ref="DESIGN.md 6.20, A.4; notes/C20.md",
     technique="Coq proof (refinement of the LanguageServer state machine to a map uri -> latest text + latest configuration, by "
@@ -188,16 +188,14 @@ CFG = dict(
          "observed directly (own uri->text map; last published diagnostics of every open document; edits applied in UTF-16 units = fix). "
          "non-trivial history = a formatting request whose fix changes the number of lines, a configuration switch re-checking an "
          "open document, or an open document with non-empty final diagnostics; distinct = distinct (initial config, ops). "
-         "Standard cases: group format = one case per (config, text) (edit predicted by the model, and real edit applied by the model "
-         "= fix); group docend = end_of_document on exhaustive {a,\\n,\\r}^<=5 and random texts incl. non-BMP characters",
+         "Standard cases per (config, text): group format = the real edit applied by the Gallina apply_edits gives the fix (the property on "
+         "that input), group fmtedit = the model predicts the real edit; group docend = end_of_document on exhaustive {a,\\n,\\r}^<=5 and random texts incl. non-BMP characters",
     assumptions=[
         "lint/fix are functions of (configuration file content, text): tabulated by a fresh Linter built from the same file (C07 covers purity)",
         "the working directory's .sqruff is the only configuration source (harness runs in an otherwise empty directory)",
         "LSP clients apply a TextEdit as specified (positions in UTF-16 units; the edit's end is exact, no clamping needed)",
         "didChange carries one full-document change (the server registers TextDocumentSyncKind::FULL and reads content_changes[0])",
         "a formatting request for a document that is not open panics (modelled as Crash; in the real server the process dies)",
-        "the server's linter keeps the templater chosen at start-up: histories that switch `templater` in .sqruff are excluded "
-        "(known limit, see notes/C20.md; enable with harness flag --with-templater-switch)",
     ],
     trusted_extra=["bin/propcfg/c20.py (history shard writer)", "harness worker processes: own LSP edit application (offset_of/apply_edits in harness/src/c20.rs)"],
 )
